@@ -27,6 +27,8 @@ type vhTransport struct {
 	setFails  bool
 	rxErrs    int
 	rxAliens  int
+	rxLog     []*Session // every session envelope received, in order
+	sentAtRx  []int      // number of envelopes sent when each was received
 }
 
 func (t *vhTransport) Send(_ context.Context, e envelope) error {
@@ -64,6 +66,8 @@ func (t *vhTransport) Receive(_ context.Context) (envelope, error) {
 	}
 	if s, ok := e.(*Session); ok {
 		t.lastRx = s
+		t.rxLog = append(t.rxLog, s)
+		t.sentAtRx = append(t.sentAtRx, len(t.sent))
 	} else {
 		t.rxAliens++
 	}
@@ -429,6 +433,13 @@ func HarnessC07Server() {
 		}
 	}
 	vAssert(terminals <= 1, "c07:at-most-one-terminal-envelope")
+	// reference model of the client's obligations: any violation must end in 'failed', never in 'established'
+	if t.rxErrs == 0 && t.rxAliens == 0 && env.cbErrors == 0 && vhClientViolation(env) {
+		vReach("c07:reference-model-flags-client-violation")
+		vAssert(c.state != SessionStateEstablished, "c07:client-violation-never-establishes")
+		vAssert(vhCount(t.calls, "send:established") == 0, "c07:no-established-envelope-after-client-violation")
+		vAssert(c.state == SessionStateFailed, "c07:client-violation-fails-the-session")
+	}
 	// fail closed: the peer only sent session envelopes, callbacks did not fail, and yet no session was established
 	if t.rxErrs == 0 && t.rxAliens == 0 && env.cbErrors == 0 && c.state != SessionStateEstablished && t.step > 0 {
 		vReach("c07:client-violated-the-exchange")
@@ -470,6 +481,45 @@ func vhCompSetEq(got []SessionCompression, want []SessionCompression, sup []Sess
 		}
 	}
 	return true
+}
+
+// vhClientViolation: reference check of the client's side of the exchange. Returns true when some
+// received session breaks the protocol: first envelope not a fresh 'new', wrong id echoed, state not
+// matching the server's last request, selection outside the offer, scheme that was not offered.
+func vhClientViolation(env *vhServerEnv) bool {
+	t := env.t
+	bad := false
+	for i := 0; i < len(t.rxLog); i++ {
+		rx := t.rxLog[i]
+		if t.sentAtRx[i] == 0 {
+			if rx.State != SessionStateNew || rx.ID != "" {
+				bad = true
+			}
+			continue
+		}
+		req := vhSentSession(t, t.sentAtRx[i]-1)
+		if req == nil {
+			continue
+		}
+		if rx.ID != vhSID {
+			bad = true
+		}
+		switch req.State {
+		case SessionStateNegotiating:
+			if rx.State != SessionStateNegotiating {
+				bad = true
+			} else if len(req.EncryptionOptions) > 0 || len(req.CompressionOptions) > 0 {
+				if !vhEncIn(rx.Encryption, req.EncryptionOptions) || !vhCompIn(rx.Compression, req.CompressionOptions) {
+					bad = true
+				}
+			}
+		case SessionStateAuthenticating:
+			if rx.State != SessionStateAuthenticating || !vhSchemeIn(rx.Scheme, env.schemes) {
+				bad = true
+			}
+		}
+	}
+	return bad
 }
 
 // HarnessC09: only offered options are negotiated and they are applied before authentication.
